@@ -23,3 +23,9 @@ chk("C17", "exploration", "runtime monitor on the callback boundary: stop at eve
 chk("C05", "exploration", "hostile-input runtime monitor: structure-aware corruptions run through every public operation in crash-isolated child workers with logical read/callback budgets, heap limit and watchdog",
     "Thousands (quick) / hundreds of thousands (thorough) of mutated images over ~30 seed files; every public entry point incl. Row.Scan*, the mmap pager with hostile journals and database/sql on a subset. Held = no panic, fatal error, budget overrun or hang on these images; not memory safety.",
     "page walker chooses mutation sites; budgets are logical; a watchdog timeout that does not reproduce alone is inconclusive", "DESIGN.md 3 C05")
+chk("C13", "exploration", "reference-model monitor: ScanMin/ScanRange/ScanEq vs the full scan filtered by an independent comparator (itself validated against SQLite ranks)",
+    "Every index and WITHOUT ROWID tree of the corpus x cut keys at every page boundary / interior entry (walker), PRNG samples, between-neighbour mutations, below/above all entries, longer-than-record keys. Held on the (index, op, key) triples run.",
+    "reference comparator validated against SQLite on the value grid each run; a comparator mismatch is inconclusive", "DESIGN.md 3 C13")
+chk("C14", "exploration", "differential decoding monitor: SQLite-written payload-length sweeps per page size + hand-built pages with non-minimal varints, same file read by SQLite and sqlittle",
+    "Exhaustive in payload length 0..3*pagesize for 512/1024-byte pages (table, index, WITHOUT ROWID cells), threshold neighbourhoods for the other six page sizes, all integer serial widths at their boundaries, rowid/size/header/serial varints of 1..9 bytes (non-minimal ones via an independent encoder). Held on the cells read.",
+    "SQLite 3.40.1 is the reference also for the hand-built files; files it rejects are skipped", "DESIGN.md 3 C14")
